@@ -18,6 +18,9 @@
 // op lines (ids/traverser numbers: 1..6 decimal digits; traversers 0..3):
 //
 //	push                 l.PushBack(id)            the n-th push creates element n
+//	pushrm               e := l.PushBack(id); l.Remove(e) back to back, GOMAXPROCS(1) pinned around the
+//	                     pair: a caller parked in NextWait on the tail / in FrontWait is woken by the push
+//	                     and finds nothing when it runs — it must block again (output ok:<id>/<Remove result>)
 //	remove <id>          l.Remove(elem[id])
 //	detachprev <id>      elem[id].DetachPrev()
 //	detachnext <id>      elem[id].DetachNext()
@@ -60,9 +63,11 @@ package main
 
 import (
 	"fmt"
+	"os"
 	"runtime"
 	"strings"
 	"sync"
+	"sync/atomic"
 	"time"
 
 	"github.com/gnolang/gno/tm2/pkg/clist"
@@ -75,6 +80,9 @@ const maxTrav = 4
 const maxElems = 10
 
 var hangTimeout = 3 * time.Second
+
+// how long a caller woken for nothing is given to (wrongly) return
+const spuriousGrace = 3 * time.Millisecond
 
 const (
 	stIdle = iota
@@ -89,6 +97,12 @@ type trav struct {
 	cur *clist.CElement
 	log []int
 	res chan *clist.CElement
+	// waitCh: the wait channel that was current when the call was launched (or
+	// when the caller was last seen to have gone back to sleep).  If it is closed
+	// while the wake-up condition does not hold, the caller has been woken for
+	// nothing (pushrm: PushBack then Remove before it ran): it must go back to
+	// sleep, which is given a grace period to show.
+	waitCh <-chan struct{}
 	// hung: the call did not return within hangTimeout although its wake-up
 	// condition held (reported as lost-wakeup); it stays pending and is polled
 	// with a short deadline from then on.
@@ -108,9 +122,15 @@ type world struct {
 	removed       []bool
 	doubleRemoved bool
 	pendingViol   string // verdict of an event (traverser return, panic) during this op
+	// pushrm bookkeeping: the element pushed and removed by the current op, and
+	// whether a traverser was handed it (= it ran between the two calls)
+	pairElem *clist.CElement
+	raced    bool
 }
 
 var w *world
+
+var stressFailures int
 
 func newWorld() *world {
 	x := &world{l: clist.New(), id: map[*clist.CElement]int{}}
@@ -121,7 +141,24 @@ func newWorld() *world {
 	return x
 }
 
+// self-test knob: with VERIF_C49_YIELD=1 the first attempt of every pushrm (per position
+// in its case) yields between PushBack and Remove, so the discard-and-replay path of exec
+// runs; the output must not change.
+var forceYield = os.Getenv("VERIF_C49_YIELD") == "1"
+var yielded = map[int]bool{}
+
+// history: the op lines of the current case that were executed on w (for rebuild).
+var history [][]string
+
 func reset() {
+	history = nil
+	yielded = map[int]bool{}
+	abandon()
+	w = newWorld()
+}
+
+// abandon lets the blocked traversers of w go.
+func abandon() {
 	if w != nil && !w.poisoned {
 		// let blocked traversers of the previous case go: a push wakes FrontWait
 		// and the NextWait on the tail.
@@ -138,7 +175,46 @@ func reset() {
 			}()
 		}
 	}
+}
+
+// rebuild replays the case so far on a fresh list (used when a pushrm pair was
+// interleaved, see exec); false if a replayed pushrm was interleaved itself.
+func rebuild() bool {
+	abandon()
 	w = newWorld()
+	for _, h := range history {
+		execOnce(h)
+		if w.raced {
+			return false
+		}
+	}
+	return true
+}
+
+// exec runs one op.  `pushrm` needs the woken waiter NOT to run between PushBack
+// and Remove.  One P and no yield make that the rule, but not a guarantee: if the
+// OS takes the thread away for more than the scheduler's 10 ms time slice inside
+// the pair, sysmon preempts the harness goroutine and the waiter runs in between —
+// on correct code it is then handed the new element (the only way it can be handed
+// that element at all, since after the Remove neither Front() nor the tail's next
+// is that element).  That is a legal schedule but not the one the op is meant to
+// produce (and the model does not produce), so the attempt is discarded: the case is
+// replayed on a fresh list and the op retried.  An implementation that hands out the
+// removed element every time is reported after three attempts.
+func exec(t []string) (string, string) {
+	impl, orc := execOnce(t)
+	for try := 0; w.raced && try < 3; try++ {
+		if os.Getenv("VERIF_TRACE") != "" {
+			fmt.Fprintf(os.Stderr, "c49: pushrm pair was interleaved (attempt %d), replaying %d ops\n", try+1, len(history))
+		}
+		for i := 0; i < 5 && !rebuild(); i++ {
+		}
+		impl, orc = execOnce(t)
+	}
+	if len(t) > 0 && t[0] != "stress" {
+		history = append(history, t)
+	}
+	return impl, orc
 }
 
 // ---------------------------------------------------------------- observation
@@ -266,6 +342,9 @@ func (x *world) viol(class, detail string) {
 
 // arrive judges a value handed to traverser t (front = by FrontWait) and records it.
 func (x *world) arrive(t *trav, r *clist.CElement, front bool) {
+	if r != nil && r == x.pairElem {
+		x.raced = true
+	}
 	if r == nil {
 		if front {
 			x.viol("nil-live", "FrontWait returned nil")
@@ -341,6 +420,19 @@ func (x *world) settle() {
 				}
 				x.viol("lost-wakeup", "traverser still blocked in "+what)
 				t.hung = true
+			}
+		} else if t.waitCh != nil && isClosed(t.waitCh) {
+			// woken although there is nothing to return: the call must re-check and
+			// block again (NextWait/FrontWait loop); a return now is spurious.
+			select {
+			case r := <-t.res:
+				x.arrive(t, r, front)
+			case <-time.After(spuriousGrace):
+				if front {
+					t.waitCh = x.l.WaitChan()
+				} else {
+					t.waitCh = t.cur.NextWaitChan()
+				}
 			}
 		} else {
 			runtime.Gosched()
@@ -480,15 +572,16 @@ func (x *world) finish(res string) (string, string) {
 	return res + " | " + x.dump(), x.verdict()
 }
 
-func exec(t []string) (string, string) {
+func execOnce(t []string) (string, string) {
+	x := w
+	x.pendingViol = ""
+	x.pairElem, x.raced = nil, false
 	if len(t) == 0 {
 		return "err:badop", "-"
 	}
-	x := w
-	x.pendingViol = ""
 	arg := -1
 	switch t[0] {
-	case "push":
+	case "push", "pushrm":
 		if len(t) != 1 {
 			return "err:badop", "-"
 		}
@@ -514,7 +607,15 @@ func exec(t []string) (string, string) {
 		if !(ok1 && ok2 && ok3) || n == 0 || n > 5000 || k == 0 || k > 8 {
 			return "err:badop", "-"
 		}
-		return "stress", stress(uint64(seed), n, k)
+		// a failing stress run costs its whole deadline: stop searching after two
+		if stressFailures >= 2 {
+			return "stress", "-"
+		}
+		v := stress(uint64(seed), n, k)
+		if v != "ok" {
+			stressFailures++
+		}
+		return "stress", v
 	default:
 		return "err:badop", "-"
 	}
@@ -522,6 +623,47 @@ func exec(t []string) (string, string) {
 		return "err:poisoned", "-"
 	}
 	switch t[0] {
+	case "pushrm":
+		// PushBack and Remove of the new element back to back: a caller parked on the
+		// tail (or in FrontWait on the empty list) is woken by the push but cannot
+		// run before the removal (one P, no blocking call or yield in between).
+		for _, tr := range x.travs {
+			if tr.st == stWantFront || tr.st == stWantNext {
+				time.Sleep(100 * time.Microsecond) // let it reach Wait()
+				break
+			}
+		}
+		id := len(x.elems)
+		var e *clist.CElement
+		procs := runtime.GOMAXPROCS(1)
+		res := call(func() { e = x.l.PushBack(id) })
+		res2 := ""
+		if res == "ok" {
+			if forceYield && !yielded[len(history)] {
+				// self-test (VERIF_C49_YIELD=1): interleave the first attempt on purpose
+				yielded[len(history)] = true
+				runtime.Gosched()
+			}
+			res2 = call(func() { x.l.Remove(e) })
+		}
+		runtime.GOMAXPROCS(procs)
+		if res == "panic:wg" {
+			x.poisoned = true
+			x.viol("wg-panic", "PushBack")
+			return res, x.verdict()
+		}
+		x.pairElem = e
+		x.elems = append(x.elems, e)
+		x.id[e] = id
+		x.removed = append(x.removed, res2 == "ok" || res2 == "panic:wg")
+		if res2 == "panic:wg" {
+			x.poisoned = true
+			x.viol("wg-panic", "pushrm Remove")
+			return res2, x.verdict()
+		}
+		x.nextCh = append(x.nextCh, []<-chan struct{}{e.NextWaitChan()})
+		x.prevCh = append(x.prevCh, []<-chan struct{}{e.PrevWaitChan()})
+		return x.finish(fmt.Sprintf("ok:%d/%s", id, res2))
 	case "push":
 		id := len(x.elems)
 		var e *clist.CElement
@@ -572,6 +714,7 @@ func exec(t []string) (string, string) {
 		case "tfront":
 			tr.st, tr.cur, tr.log = stWantFront, nil, nil
 			tr.res = make(chan *clist.CElement, 1)
+			tr.waitCh = x.l.WaitChan()
 			go func(l *clist.CList, c chan *clist.CElement) { c <- l.FrontWait() }(x.l, tr.res)
 			return x.finish("ok")
 		case "tnext":
@@ -580,6 +723,7 @@ func exec(t []string) (string, string) {
 			}
 			tr.st = stWantNext
 			tr.res = make(chan *clist.CElement, 1)
+			tr.waitCh = tr.cur.NextWaitChan()
 			go func(e *clist.CElement, c chan *clist.CElement) { c <- e.NextWait() }(tr.cur, tr.res)
 			return x.finish("ok")
 		default: // tnextnow
@@ -599,7 +743,10 @@ func exec(t []string) (string, string) {
 // ---------------------------------------------------------------- concurrent stress (search support; judged by the oracle only)
 
 // stress: one appender pushes 0..n-1 and then the sentinel n; two removers remove
-// (each element at most once) the ids with id%3 != 2 and DetachPrev them; k
+// (each element at most once) the ids with id%3 != 2 and DetachPrev them — remover 0
+// the ids 3k, remover 1 their neighbours 3k+1, either keeping pace with the appender
+// or working off a backlog, and in lockstep mode meeting before every removal so that
+// two ADJACENT elements are removed at the same instant; k
 // traversers walk FrontWait/NextWait (odd ones: NextWaitChan + Next, as the
 // mempool reactor does) until they reach the sentinel, restarting from FrontWait
 // when handed nil.  Oracle: every traversal segment strictly increasing; no
@@ -611,6 +758,25 @@ func stress(seed uint64, n, k int) string {
 	r := kit.NewRand(seed)
 	keep := func(id int) bool { return id%3 == 2 || id == n }
 	feeds := [2]chan *clist.CElement{make(chan *clist.CElement, n+1), make(chan *clist.CElement, n+1)}
+	// the removers start when element startAt is pushed: 0 = removal keeps pace with
+	// the appender, later = they work off a backlog at full speed
+	start := make(chan struct{})
+	startAt, gosched := 0, 30
+	if r.Chance(70) {
+		startAt, gosched = r.Intn(n+1), 3
+	}
+	// lockstep: the removers meet at a spin barrier before each removal, so the neighbours 3k and 3k+1
+	// are removed at the same instant (both calls enter Remove together)
+	lockstep := r.Chance(75)
+	dead := make(chan struct{})
+	var arrived int64
+	var deadOnce sync.Once
+	pairs := 0
+	for id := 0; id < n; id++ {
+		if id%3 == 1 {
+			pairs++
+		}
+	}
 	var wg sync.WaitGroup
 	type seg []int
 	logs := make([][]seg, k)
@@ -658,12 +824,34 @@ func stress(seed uint64, n, k int) string {
 			defer func() {
 				if v := recover(); v != nil {
 					bad[0] = fmt.Sprint("remover panic ", v)
+					deadOnce.Do(func() { close(dead) })
 				}
 			}()
+			<-start
+			i := 0
 			for e := range feeds[ri] {
-				if rr.Chance(30) {
+				if lockstep && i < pairs {
+					// spin barrier (both removers are running when it opens; a channel
+					// hand-off would let one finish before the other is scheduled)
+					atomic.AddInt64(&arrived, 1)
+					for spins := 0; atomic.LoadInt64(&arrived) < int64(2*(i+1)); spins++ {
+						if spins%8192 == 8191 {
+							select {
+							case <-dead:
+								atomic.AddInt64(&arrived, 1<<40)
+							default:
+								runtime.Gosched()
+							}
+						}
+					}
+					// random offset of a few dozen ns between the two calls
+					for j := rr.Intn(48); j > 0; j-- {
+						atomic.LoadInt64(&arrived)
+					}
+				} else if rr.Chance(gosched) {
 					runtime.Gosched()
 				}
+				i++
 				l.Remove(e)
 				e.DetachPrev()
 			}
@@ -673,9 +861,15 @@ func stress(seed uint64, n, k int) string {
 	go func(rr *kit.Rand) {
 		defer wg.Done()
 		for id := 0; id <= n; id++ {
+			if id == startAt {
+				close(start)
+			}
 			e := l.PushBack(id)
 			if !keep(id) {
-				feeds[rr.Intn(2)] <- e
+				// 3k goes to remover 0, its neighbour 3k+1 to remover 1: once the
+				// removers work off a backlog they remove ADJACENT elements at the
+				// same time, contending for l.mtx
+				feeds[id%3] <- e
 			}
 			if rr.Chance(10) {
 				runtime.Gosched()
@@ -688,7 +882,7 @@ func stress(seed uint64, n, k int) string {
 	go func() { wg.Wait(); close(done) }()
 	select {
 	case <-done:
-	case <-time.After(60 * time.Second):
+	case <-time.After(15 * time.Second):
 		return "VIOL:lost-wakeup stress: goroutines did not finish (traverser never reached the sentinel)"
 	}
 	for ti := 0; ti < k; ti++ {
@@ -770,8 +964,8 @@ func boundary(o *kit.Out) {
 	c("detachnext-ends-traversal", "push", "push", "push", "tfront 0", "remove 0", "detachnext 0", "tnext 0")
 	c("stale-next", "push", "push", "push", "tfront 0", "tnext 0", "remove 1", "remove 2", "tnext 0", "tnext 0") // W1
 	c("stale-next-now", "push", "push", "push", "tfront 0", "tnextnow 0", "remove 1", "remove 2", "tnextnow 0", "tnextnow 0")
-	c("double-remove-relink", "push", "push", "push", "remove 1", "remove 2", "remove 1", "tfront 0", "tnext 0", "push", "push")   // W2
-	c("double-remove-poison", "push", "push", "push", "remove 1", "remove 0", "detachnext 0", "remove 1", "push", "tfront 0") // W3
+	c("double-remove-relink", "push", "push", "push", "remove 1", "remove 2", "remove 1", "tfront 0", "tnext 0", "push", "push") // W2
+	c("double-remove-poison", "push", "push", "push", "remove 1", "remove 0", "detachnext 0", "remove 1", "push", "tfront 0")    // W3
 	c("double-remove-head", "push", "push", "remove 0", "remove 0", "detachprev 0", "remove 0")
 	c("double-remove-tail", "push", "push", "remove 1", "remove 1", "detachnext 1", "remove 1", "push", "remove 1")
 	c("double-remove-only", "push", "remove 0", "remove 0", "push", "remove 0")
@@ -779,6 +973,11 @@ func boundary(o *kit.Out) {
 	c("double-remove-prev-removed", "push", "push", "push", "remove 1", "remove 0", "remove 1", "remove 2", "remove 0", "push")
 	c("busy", "tfront 0", "tfront 0", "tnext 0", "tnextnow 0", "push", "tnext 0", "tnext 0", "tfront 0", "tnextnow 0")
 	c("all-traversers", "tfront 0", "tfront 1", "tfront 2", "tfront 3", "push", "tnext 0", "tnext 1", "tnext 2", "tnext 3", "remove 0", "push", "push", "tnext 1", "tnext 3")
+	// a caller woken for nothing (push then remove before it runs) must go back to sleep
+	c("pushrm-parked-tail", "push", "tfront 0", "tnext 0", "pushrm", "pushrm", "push", "tnext 0", "pushrm")
+	c("pushrm-parked-front", "tfront 0", "pushrm", "pushrm", "tfront 1", "pushrm", "push", "tnext 0", "tnext 1")
+	c("pushrm-many", "push", "tfront 0", "tnext 0", "tfront 1", "tnext 1", "tfront 2", "pushrm", "tnext 2", "pushrm", "remove 0", "pushrm", "push")
+	c("pushrm-empty", "pushrm", "pushrm", "tfront 0", "push", "pushrm", "tnext 0", "pushrm", "remove 2", "pushrm")
 	// every removal order of a three-element list, with one waiting and one walking traverser
 	perms := [][3]int{{0, 1, 2}, {0, 2, 1}, {1, 0, 2}, {1, 2, 0}, {2, 0, 1}, {2, 1, 0}}
 	for _, p := range perms {
@@ -797,8 +996,8 @@ func (g *gen) randomCase(id string, nOpsMax int) {
 	// generator-side bookkeeping (only to bias choices)
 	n := 0
 	var live, gone []int
-	double := r.Chance(12)   // this case may remove an element twice
-	detachN := r.Chance(25)  // this case may DetachNext
+	double := r.Chance(12)  // this case may remove an element twice
+	detachN := r.Chance(25) // this case may DetachNext
 	nops := r.Range(1, nOpsMax)
 	for i := 0; i < nops; i++ {
 		switch p := r.Intn(100); {
@@ -847,6 +1046,10 @@ func (g *gen) randomCase(id string, nOpsMax int) {
 			o.Op("tfront %d", r.Intn(maxTrav))
 		case p < 90:
 			o.Op("tnext %d", r.Intn(maxTrav))
+		case p < 95 && n < maxElems:
+			gone = append(gone, n)
+			n++
+			o.Op("pushrm")
 		default:
 			o.Op("tnextnow %d", r.Intn(maxTrav))
 		}
@@ -857,7 +1060,7 @@ func malformed(g *gen, n int) {
 	r, o := g.r, g.o
 	o.Case("malformed")
 	toks := []string{"", "x", "-", "-1", "+1", "0", "1", "2", "3", "4", "007", "1234567", "999999", "1_0", "0x1", "1e1", "18446744073709551616", "a"}
-	ops := []string{"push", "remove", "detachprev", "detachnext", "tfront", "tnext", "tnextnow", "stress", "Push", "pop", "tstep"}
+	ops := []string{"push", "pushrm", "remove", "detachprev", "detachnext", "tfront", "tnext", "tnextnow", "stress", "Push", "pop", "tstep"}
 	for i := 0; i < n; i++ {
 		op := kit.Pick(r, ops)
 		parts := []string{op}
@@ -875,7 +1078,7 @@ func malformed(g *gen, n int) {
 func generate(o *kit.Out, r *kit.Rand, tier string) {
 	g := &gen{o: o, r: r}
 	boundary(o)
-	cases, nstress, sn := 5000, 4, 300
+	cases, nstress, sn := 5000, 24, 300
 	if tier == "thorough" {
 		cases, nstress, sn = 30000, 60, 3000
 	}
